@@ -1694,7 +1694,7 @@ class Normalizer:
             return None
         if not stmts:
             return ast.Constant(value=None)
-        memo = _memo_idiom(stmts)
+        memo = _memo_idiom(stmts, getattr(self, '_memo_owner', None))
         if memo is not None:
             # x = D.get(k); if x is None: x = E; D[k] = x; return x   ->   E   (what a memo returns is what it computes the first time;
             # whether keeping it is harmless is a question for the effect rules, not for the value)
@@ -1796,7 +1796,20 @@ class Normalizer:
             return None
         self._avoid_capture(body, mapping)
         # parameters that the helper re-assigns behave like locals initialised with the argument
-        e = self.expr_form(body, dict(mapping))
+        # (a memo may be looked through only when its table is an attribute the class's own __init__ creates on the object)
+        self._memo_owner = set()
+        if target.cls is not None and '__init__' in target.cls.methods:
+            for a_ in ast.walk(target.cls.methods['__init__'].node):
+                if isinstance(a_, (ast.Assign, ast.AnnAssign)):
+                    for t_ in (a_.targets if isinstance(a_, ast.Assign) else [a_.target]):
+                        if isinstance(t_, ast.Attribute) and isinstance(t_.value, ast.Name) and t_.value.id == 'self':
+                            self._memo_owner.add(t_.attr)
+        try:
+            e = self.expr_form(body, dict(mapping))
+        finally:
+            self._memo_owner = None
+        if False:
+            e = None
         if e is None:
             return None
         self.stats['inlined'] += 1
@@ -2749,9 +2762,13 @@ class Normalizer:
         return tail
 
 
-def _memo_idiom(stmts):
-    """`x = D.get(k)` / `if x is None: x = E; D[k] = x` / `return x`  ->  E, else None."""
+def _memo_idiom(stmts, owner=None):
+    """`x = D.get(k)` / `if x is None: x = E; D[k] = x` / `return x`  ->  E, else None.  Only for a memo that lives in the object
+    itself (`self.attr` bound in the class's __init__): a table at class or module level outlives the call, and dropping the store
+    would hide that from the effect rules."""
     if len(stmts) != 3:
+        return None
+    if owner is None:
         return None
     a, b, c = stmts
     nm, val = _single_name_assign(a)
@@ -2759,6 +2776,8 @@ def _memo_idiom(stmts):
                           and not val.keywords):
         return None
     table, key = val.func.value, val.args[0]
+    if not (isinstance(table, ast.Attribute) and isinstance(table.value, ast.Name) and table.value.id == 'self' and table.attr in owner):
+        return None
     if not (isinstance(b, ast.If) and not b.orelse and isinstance(b.test, ast.Compare) and len(b.test.ops) == 1
             and isinstance(b.test.ops[0], ast.Is) and isinstance(b.test.left, ast.Name) and b.test.left.id == nm
             and is_const(b.test.comparators[0], None) and len(b.body) == 2):
